@@ -62,7 +62,9 @@ fn main() {
             let mut hs = vec![];
             for t in 0..threads {
                 let (calls, base) = (calls.clone(), base.clone());
-                hs.push(std::thread::spawn(move || {
+                // the same stack as the main thread and the monitors' threads (8 MiB + margin): the
+                // unoptimised sanitizer builds need several times the frame size of a release build
+                hs.push(std::thread::Builder::new().stack_size(8 * 1024 * 1024 + 256 * 1024).spawn(move || {
                     sut::install_hook();
                     let mut bad = 0;
                     let n = calls.len();
@@ -75,7 +77,7 @@ fn main() {
                         }
                     }
                     bad
-                }));
+                }).expect("spawn"));
             }
             let bad: usize = hs.into_iter().map(|h| h.join().unwrap_or(1)).sum();
             println!("SAN-DONE mode=c16 calls={} threads={} mismatches={}", calls.len() * (threads + 1), threads, bad);
